@@ -402,7 +402,16 @@ func (b *ReadOnly) AllKeysChan(ctx context.Context) (<-chan cid.Cid, error) {
 				maybeReportError(ctx, err)
 				return
 			}
-			if _, err := rdr.Seek(thisItemForNxt+int64(length), io.SeekStart); err != nil {
+			// Seeking beyond the end succeeds: go to the last byte of the section and read it,
+			// so that a section that is not all there is reported, not taken for the end.
+			if _, err := rdr.Seek(thisItemForNxt+int64(length)-1, io.SeekStart); err != nil {
+				maybeReportError(ctx, err)
+				return
+			}
+			if _, err := rdr.ReadByte(); err != nil {
+				if err == io.EOF {
+					err = io.ErrUnexpectedEOF
+				}
 				maybeReportError(ctx, err)
 				return
 			}
